@@ -48,7 +48,7 @@ func hx(b []byte) string {
 // hxo encodes an *output* byte string: long ones as #len:md5 (the OCaml driver
 // applies the same rule to the model's output before comparing).
 func hxo(b []byte) string {
-	if len(b) > 300 {
+	if len(b) > 2048 {
 		s := md5.Sum(b)
 		return fmt.Sprintf("#%d:%s", len(b), hex.EncodeToString(s[:]))
 	}
@@ -105,3 +105,13 @@ func b2s(b bool) string {
 }
 
 func itoa(i int) string { return fmt.Sprintf("%d", i) }
+
+func parseFill(tok string) (pre []byte, cnt, seed int) {
+	i := strings.IndexByte(tok, '*')
+	if i < 0 {
+		return unhx(tok), 0, 0
+	}
+	pre = unhx(tok[:i])
+	fmt.Sscanf(tok[i+1:], "%d:%d", &cnt, &seed)
+	return
+}
